@@ -19,6 +19,7 @@ the code by the correspondence run.
     and its destination                                                                             -> Gen.introAddrs / Gen.respFields / Gen.punctReqSends
   * Community.create_introduction_request: identifier = claimed global time [% N], address fields       -> Gen.requestIdentifier / Gen.reqFields
   * payload classes: which reduce the identifier modulo 65536 in __init__, which pack it raw as 'H'    -> Gen.identTruncated
+  * Community.on_introduction_request: the capacity guard (comparison chain over 0, max_peers, len(get_peers()))  -> Gen.atCapacity
   * Community.on_introduction_request: LAN-address learning condition/value, the arguments handed to
     create_introduction_response and the destination of the response                                -> Gen.learnsLan / Gen.learnedLan / Gen.respArgs
 
@@ -330,6 +331,15 @@ def intro_response_parts(com_cls) -> str:
     if not (isinstance(st0, ast.If) and not st0.orelse and len(st0.body) == 1
             and _src(st0.body[0]) == "self.my_estimated_wan = payload.destination_address"):
         raise TranslatorError(f"on_introduction_response: expected the my_estimated_wan update first: `{_src(st0)[:120]}`")
+    if _src(body[1]) != "self.my_peer.address = payload.destination_address":
+        raise TranslatorError(f"on_introduction_response: unexpected second statement `{_src(body[1])[:100]}`")
+    sw = body[2]
+    if not (isinstance(sw, ast.If) and _src(sw.test) == "peer.new_style_intro" and not sw.orelse and len(sw.body) == 3
+            and isinstance(sw.body[2], ast.If) and "requested_interface != used_interface" in _src(sw.body[2].test)
+            and "in cast('DispatcherEndpoint', self.endpoint).interfaces" in _src(sw.body[2].test)):
+        raise TranslatorError("on_introduction_response: the interface-switch block (`if peer.new_style_intro:` guarded by "
+                              "requested_interface != used_interface and the endpoint's interfaces) changed shape; the "
+                              "model assumes it is dead for IPv4 peers on an endpoint without `interfaces`")
     tr = Tr("on_introduction_response", set(), set())
     cond = tr.expr(st0.test)
     # the update must happen before the introductions are chosen and nothing else may assign my_estimated_wan/lan
@@ -457,6 +467,23 @@ def create_response_parts(com_cls) -> str:
 def intro_request_parts(com_cls) -> str:
     fn = _fn(com_cls, "on_introduction_request")
     body = _body(fn)
+    # the capacity guard: `if <chain over 0, self.max_peers, len(self.get_peers())>: <log>; return`
+    g = body[0]
+    if not (isinstance(g, ast.If) and not g.orelse and isinstance(g.body[-1], ast.Return) and g.body[-1].value is None
+            and isinstance(g.test, ast.Compare)):
+        raise TranslatorError(f"on_introduction_request: capacity guard not found first: `{_src(g)[:100]}`")
+    names = {"0": "0", "self.max_peers": "max_peers", "len(self.get_peers())": "n_peers"}
+    terms = [_src(g.test.left)] + [_src(c) for c in g.test.comparators]
+    if any(t not in names for t in terms):
+        raise TranslatorError(f"on_introduction_request: capacity guard outside the subset: `{_src(g.test)}`")
+    cmp_ = {ast.Lt: "<", ast.LtE: "<=", ast.Gt: ">", ast.GtE: ">=", ast.Eq: "==", ast.NotEq: "!="}
+    if any(type(o) not in cmp_ for o in g.test.ops):
+        raise TranslatorError(f"on_introduction_request: capacity guard operator outside the subset: `{_src(g.test)}`")
+    parts = [f"decide ({names[terms[i]]} {cmp_[type(o)].replace('==', '=').replace('!=', '≠').replace('<=', '≤').replace('>=', '≥')} {names[terms[i + 1]]})"
+             for i, o in enumerate(g.test.ops)]
+    guard = " && ".join(parts)
+    if body.index(g) != 0:
+        raise TranslatorError("on_introduction_request: capacity guard is not the first statement")
     learn = next((s for s in body if isinstance(s, ast.If) and "UDPv4LANAddress" in _src(s)), None)
     if learn is None or learn.orelse or len(learn.body) != 1:
         raise TranslatorError("on_introduction_request: LAN address learning statement not found")
@@ -487,7 +514,9 @@ def intro_request_parts(com_cls) -> str:
     between = [_src(s) for s in body[i_learn + 1:body.index(mk)]]
     if between != ["self.network.add_verified_peer(peer)", "self.network.discover_services(peer, [self.community_id])"]:
         raise TranslatorError(f"on_introduction_request: unexpected statements before the response: {between}")
-    return ("/-- on_introduction_request: is the sender's LAN address recorded, and which value -/\n"
+    return ("/-- on_introduction_request: the request is dropped (no answer) when this holds -/\n"
+            f"def atCapacity (max_peers n_peers : Nat) : Bool :=\n  {guard}\n\n"
+            "/-- on_introduction_request: is the sender's LAN address recorded, and which value -/\n"
             f"def learnsLan (payload : IntroReqView) : Bool :=\n  {cond}\n"
             f"def learnedLan (payload : IntroReqView) : Addr :=\n  {val}\n\n"
             "/-- on_introduction_request: (lan_socket_address, socket_address) handed to create_introduction_response and the\n"
